@@ -135,6 +135,10 @@ type obs struct {
 	Tag     string   `json:"tag"`
 	Canary  bool     `json:"canary_ok"`
 	Note    string   `json:"note,omitempty"`
+	// for the cause of a canary failure: genuine trees (1..3) whose stored copy differs
+	// from the genuine tree, and genuine trees that are requested but not received
+	Forged  []int `json:"forged,omitempty"`
+	Awaited []int `json:"awaited,omitempty"`
 }
 
 type workerOut struct {
@@ -764,6 +768,14 @@ func (w *world) snapshot(o *obs) {
 				root = w.nodeAbs(t.Root.ID)
 			}
 			o.Store = append(o.Store, fmt.Sprintf("mkSt %d %d %d %d", n, code, ro, root))
+			if n >= 1 && n <= 3 {
+				if code == 1 {
+					o.Awaited = append(o.Awaited, n)
+				}
+				if code == 2 && !sameShape(w.ov.VerifTree(id), w.trees[n]) {
+					o.Forged = append(o.Forged, n)
+				}
+			}
 			o.Removal = append(o.Removal, fmt.Sprintf("(%d, %s)", n, lib.Bool(w.ov.VerifRemovalPending(id))))
 		}
 	}
@@ -1045,45 +1057,49 @@ func sameTM(a, b *jtm) bool {
 	return bytes.Equal(x, y)
 }
 
-// features of the history that explain a canary failure
-func causes(ops []jop) []string {
-	var f []string
-	known := map[int]bool{}
-	requested := map[int]bool{}
-	for _, op := range ops {
-		if op.Canary != "" {
-			continue
+// sameShape compares a stored tree with the genuine one: roster id, node ids,
+// servers and shape
+func sameShape(a, b *onet.Tree) bool {
+	if a == nil || b == nil || a.Roster == nil || !a.Roster.ID.Equal(b.Roster.ID) {
+		return false
+	}
+	var eq func(x, y *onet.TreeNode) bool
+	eq = func(x, y *onet.TreeNode) bool {
+		if !x.ID.Equal(y.ID) || !x.ServerIdentity.Equal(y.ServerIdentity) || len(x.Children) != len(y.Children) {
+			return false
 		}
-		switch op.K {
-		case "tree":
-			known[op.Tree] = true
-		case "recv":
-			m := op.M
-			switch m.T {
-			case "proto":
-				if m.To != nil && m.B != "garbage" && !known[m.To.Tr] {
-					if !requested[m.To.Tr] && op.P != parentOfX(m.To.Tr) {
-						f = append(f, "squat")
-					}
-					requested[m.To.Tr] = true
-				}
-			case "resptree", "treemarshal":
-				if m.TM != nil && m.TM.Tr >= 1 && m.TM.Tr <= 3 && !sameTM(m.TM, genuineTM(m.TM.Tr)) {
-					if known[m.TM.Tr] {
-						f = append(f, "poison-known")
-					} else {
-						f = append(f, "bogus-requested")
-					}
-				}
-				if m.TM != nil && m.TM.Tr >= 1 && m.TM.Tr <= 3 && sameTM(m.TM, genuineTM(m.TM.Tr)) && m.T == "resptree" &&
-					requested[m.TM.Tr] && m.RO != nil && m.RO.ID == 1 && !roNoKey(m.RO) && len(m.RO.L) == 3 {
-					known[m.TM.Tr] = true
-				}
+		for i := range x.Children {
+			if !eq(x.Children[i], y.Children[i]) {
+				return false
 			}
 		}
+		return true
 	}
-	sort.Strings(f)
-	return uniq(f)
+	return eq(a.Root, b.Root)
+}
+
+// cause of a canary failure, read off the server's state at the failure: the
+// canary's tree is stored forged (F72 if the server had the tree, F73 if it was
+// waiting for it), or it is still awaited and its sender was not asked (F71)
+func cause(op jop, o *obs) string {
+	t := canaryTree(op)
+	if op.Canary == "reqroster" {
+		t = 1
+	}
+	for _, n := range o.Forged {
+		if n == t {
+			if t == 1 {
+				return "poison-known"
+			}
+			return "bogus-requested"
+		}
+	}
+	for _, n := range o.Awaited {
+		if n == t {
+			return "squat"
+		}
+	}
+	return "unexplained"
 }
 
 // ---- Coq terms ----------------------------------------------------------------------------
@@ -1528,7 +1544,7 @@ func run(raw json.RawMessage) lib.Case {
 			case o.Out == 2 || len(o.Locks) > 0:
 				verdict = "leak@" + o.Tag
 			case op.Canary != "" && !o.Canary:
-				verdict = fmt.Sprintf("canary-%s%d:%s", op.Canary, canaryTree(op), strings.Join(causes(ops[:i]), ","))
+				verdict = fmt.Sprintf("canary-%s%d:%s", op.Canary, canaryTree(op), cause(op, o))
 			}
 		}
 	}
@@ -1777,7 +1793,7 @@ func (g *gen) history(state string) input {
 var states = []string{"idle", "midrun", "done", "mixed"}
 
 func generate(rng *rand.Rand, tier string) []interface{} {
-	nproc, nnet := 340, 30
+	nproc, nnet := 200, 20
 	if tier != "quick" {
 		nproc, nnet = 6000, 400
 	}
